@@ -28,6 +28,8 @@ def run(ctx):
                       "per_instance Parameter whose class has not disabled instance Parameters", floor=1)
     ctx.rule("R12.q", "namespace model (shared with R13.h): under every history of up to 3 class-level operations on A <- B <- C (and 2 on a diamond), a class-level assignment changes what that "
                       "class and the classes below it (up to the next override) see, and nothing that an ancestor or a sibling sees; every class's lookup finds the Parameter that governs it", floor=1)
+    ctx.rule("R12.r", "instance Parameter objects never enter the class's lookup: the class-level `.param` memo (handed out by reference by objects(instance=False)) is never mutated in place, "
+                      "directly or through a local alias (shared with R13.f)", floor=1)
     ctx.rule("R12.m", "setter model: Parameter.__set__ interpreted abstractly on every combination (576) of route x constant/readonly x validation outcome x identity x reference mode x watchers x batching agrees with the specification of this property (see checks/setter_model.py)", floor=1)
     ctx.rule("R12.k", "constructor model: Parameters._setup_params (with _instantiate_param) interpreted abstractly on 288 combinations of keywords x reference modes (plain value / reference with a value / reference without a value yet / asynchronous reference) x an unknown keyword: own copy of every instantiate=True default and pinned constants before any keyword is applied (and still there when a keyword assigns nothing), exactly the specified assignments, every reference and only references recorded", floor=1)
     ctx.not_decided += ["order-dependent histories (whether the per-instance copy existed before a class-level change) -- the rules make them irrelevant but the behavioural statement is not executed"]
@@ -257,6 +259,8 @@ def run(ctx):
     else:
         ctx.ok("R12.l", pi, loop, "4/4: instantiate is inherited from the ancestor whatever the type relation")
 
+    from checks.shared import memo_not_mutated_in_place
+    memo_not_mutated_in_place(ctx, "R12.r")
     from checks import instcopy_model
     instcopy_model.report(ctx, "R12.p")
     from checks import namespace_model
